@@ -39,7 +39,7 @@ class Fault(object):
 
 class PipeCore(object):
     def __init__(self, dev, rec=None, clock=None, frag=None, wcap=None, stall='raise', tick=0.0, default_timeout=10.0, fault=None,
-                 log_io=False, exc_timeout=None, rtype=None, write_none=False, exclusive=False, boundary=None):
+                 log_io=False, exc_timeout=None, rtype=None, write_none=False, exclusive=False, boundary=None, defer_ref=False):
         self.dev = dev
         self.rec = rec or dev.rec
         self.clock = clock or VClock()
@@ -55,6 +55,8 @@ class PipeCore(object):
         self.boundary = boundary       # 'usb': transfers keep their boundaries (header and payload are separate transfers); a read that asks for
                                        # less than the pending transfer holds overflows and loses it, a read never crosses into the next transfer
         self.cur_rest = b''
+        self.defer_ref = defer_ref     # the transport queues the caller's OBJECT (no copy) and transmits it at its next call - what asyncio's socket transport does on Python >= 3.12
+        self._deferred = None
         self.exclusive = exclusive     # like a claimed USB interface: connect() on a transport that was not closed fails with EBUSY
         self.write_none = write_none   # a sendall-style transport: bulk_write sends everything and returns None (the library still accepts that)
         self.exc_timeout = exc_timeout or timeout_class()
@@ -304,6 +306,12 @@ def shape(core, b):
     raise ValueError(t)
 
 
+def _flush(core):
+    d, core._deferred = core._deferred, None
+    if d is not None:
+        core.write(bytes(d), None)            # whatever the object holds NOW is what goes out
+
+
 class Watchdog(BaseException):
     """Raised when an operation exceeds its transport-call budget (a hang in virtual time)."""
 
@@ -323,6 +331,7 @@ def make_transport_classes():
             self.gate = gate
 
         def close(self):
+            _flush(self.core)
             self.core.close()
 
         def connect(self, transport_timeout_s):
@@ -331,11 +340,17 @@ def make_transport_classes():
         def bulk_read(self, numbytes, transport_timeout_s):
             if self.gate:
                 self.gate.before_read(self.core)
+            _flush(self.core)
             return shape(self.core, self.core.read(numbytes, transport_timeout_s))
 
         def bulk_write(self, data, transport_timeout_s):
             if self.gate:
                 self.gate.before_write(self.core)
+            if self.core.defer_ref:
+                d, self.core._deferred = self.core._deferred, data
+                if d is not None:
+                    self.core.write(bytes(d), transport_timeout_s)
+                return len(data)
             return self.core.write(data, transport_timeout_s)
 
     class MemTransportAsync(BaseTransportAsync):
@@ -344,6 +359,7 @@ def make_transport_classes():
             self.gate = gate
 
         async def close(self):
+            _flush(self.core)
             self.core.close()
 
         async def connect(self, transport_timeout_s):
@@ -352,11 +368,17 @@ def make_transport_classes():
         async def bulk_read(self, numbytes, transport_timeout_s):
             if self.gate:
                 await self.gate.before_read_async(self.core)
+            _flush(self.core)
             return shape(self.core, self.core.read(numbytes, transport_timeout_s))
 
         async def bulk_write(self, data, transport_timeout_s):
             if self.gate:
                 await self.gate.before_write_async(self.core)
+            if self.core.defer_ref:
+                d, self.core._deferred = self.core._deferred, data
+                if d is not None:
+                    self.core.write(bytes(d), transport_timeout_s)
+                return len(data)
             return self.core.write(data, transport_timeout_s)
 
     return MemTransport, MemTransportAsync
